@@ -28,7 +28,7 @@ def concurrent_part(ctx, prefix, names):
         jobs.append((p, cap, (cap, np_, nc, procs), evs))
     from concurrent.futures import ThreadPoolExecutor
     def val(j):
-        return ctx.validate("ipc/ShmBufLin.tla", "ShmBufLin.cfg", j[0], env={"CAP_": str(j[1])})
+        return ctx.validate("ipc/ShmBufLin.tla", "ShmBufLin.cfg", j[0], env={"CAP_": str(j[1])}, timeout=600 if ctx.quick else 3000)
     with ThreadPoolExecutor(6) as ex:
         res = list(ex.map(val, jobs))
     for j, (ok, matched) in zip(jobs, res):
